@@ -94,6 +94,8 @@ def block_facts(case: str, out: str):
             f["enter"] = idx
         elif k == "bodyend":
             f["bodyend"] = e[3]
+            f["bodyend_idx"] = idx
+            f["pending"] = len(e) > 4 and e[4] == "1"
         elif k == "left":
             f["left"], f["same"], f["left_idx"] = e[3], e[4], idx
         elif k == "dened":
@@ -112,6 +114,8 @@ def block_facts(case: str, out: str):
         f["cancel_inside"] = any(f["pre_idx"] < i < f["left_idx"] for i in cancels.get(t, []))
         f["failure_before_left"] = any(i < f["left_idx"] for i in failures)
         f["disturbed"] = any(i < f["left_idx"] for i in disturb)
+        f["disturbed_during_exit"] = f.get("pending", False) or any(
+            f.get("bodyend_idx", f["left_idx"]) < i < f["left_idx"] for i in disturb)
         res.append(f)
     return res
 
@@ -178,9 +182,20 @@ def monitor(case: str, out: str) -> list[str]:
             a, b = f["pre"].split("/"), f["post"].split("/")
             which = [n for n, x, y in zip(("state", "metrics-scope", "task-group"), a, b) if x != y]
             fails.add("context.not-restored:" + "+".join(which))
-        clean = all(x == "ok" for x in f["dened"]) and all(x == "ok" for x in f["dexed"]) and not f["disturbed"]
-        if clean and "bodyend" in f:
+        cleanup_ok = all(x == "ok" for x in f["dened"]) and all(x == "ok" for x in f["dexed"])
+        if cleanup_ok and "bodyend" in f and not f["disturbed"]:
             if f["left"] != f["bodyend"] or (f["left"] != "ok" and f["same"] != "1"):
+                fails.add("context.body-exception-replaced")
+        # the body left with an exception (its own, or a cancellation), no disposable cleanup failed and nothing
+        # happened while the exit was running (no cancellation request pending or arriving, no task failing, no
+        # body failing elsewhere): the caller must receive that very object - failures of spawned tasks that
+        # happened *before* are not the scope's to report
+        if cleanup_ok and f.get("bodyend", "ok") != "ok" and f["same"] != "1":
+            # legitimate replacement: a (new) cancellation delivered while the exit runs - requested during the exit,
+            # pending at its start, or sent by a task group aborting because some task/body failed earlier (its
+            # done-callback runs a loop turn later, so it cannot be ordered exactly against this block's events)
+            legit = f["left"] == "Cancelled" and (f["disturbed_during_exit"] or f["disturbed"])
+            if not legit:
                 fails.add("context.body-exception-replaced")
     return sorted(fails)
 
